@@ -344,6 +344,13 @@ func (t *wal) AppendAndSync(entry *proto.LogEntry, callback func(err error)) {
 
 func (t *wal) rolloverSegment() error {
 	var err error
+	if t.syncData {
+		// Later syncs only cover the new current segment: make this one durable before it becomes read-only,
+		// otherwise entries at its tail are reported as synced without ever having been flushed
+		if err = t.currentSegment.Flush(); err != nil {
+			return err
+		}
+	}
 	if err = t.currentSegment.Close(); err != nil {
 		return err
 	}
